@@ -21,6 +21,12 @@ pub struct Entry {
     pub variant: Option<fn(&Value) -> String>,
     /// expected compiled length for fixed-size tables, from the spec
     pub spec_len: Option<fn(&[u8]) -> Option<usize>>,
+    /// `Default::default()` of the type, as a fallback seed
+    pub default_json: Option<fn() -> Value>,
+}
+
+fn default_of<T: Default + Serialize>() -> Value {
+    serde_json::to_value(T::default()).unwrap_or(Value::Null)
 }
 
 fn top_from_font<T>(font: &FontRef) -> Vec<Result<Value, String>>
@@ -45,6 +51,7 @@ macro_rules! plain {
             from_font: None,
             variant: None,
             spec_len: None,
+            default_json: Some(default_of::<wt::$m::$t>),
         });
     )*};
 }
@@ -59,6 +66,7 @@ macro_rules! top {
             from_font: Some(|f| top_from_font::<wt::$m::$t>(f)),
             variant: None,
             spec_len: None,
+            default_json: Some(default_of::<wt::$m::$t>),
         });
     )*};
 }
@@ -191,6 +199,7 @@ pub fn registry() -> Vec<Entry> {
         from_font: None,
         variant: None,
         spec_len: None,
+        default_json: None,
     });
     v.push(Entry {
         name: "ift::GlyphData",
@@ -200,6 +209,7 @@ pub fn registry() -> Vec<Entry> {
         from_font: None,
         variant: None,
         spec_len: None,
+        default_json: None,
     });
     // ---- tables whose reader needs arguments: derived from the written value
     v.push(Entry {
@@ -216,6 +226,7 @@ pub fn registry() -> Vec<Entry> {
         from_font: Some(hmtx_from_font),
         variant: None,
         spec_len: None,
+        default_json: None,
     });
     v.push(Entry {
         name: "Vmtx",
@@ -231,6 +242,7 @@ pub fn registry() -> Vec<Entry> {
         from_font: Some(vmtx_from_font),
         variant: None,
         spec_len: None,
+        default_json: None,
     });
     v.push(Entry {
         name: "Sbix",
@@ -250,6 +262,7 @@ pub fn registry() -> Vec<Entry> {
         from_font: Some(sbix_from_font),
         variant: None,
         spec_len: None,
+        default_json: None,
     });
     v.push(Entry {
         name: "Strike",
@@ -264,6 +277,7 @@ pub fn registry() -> Vec<Entry> {
         from_font: None,
         variant: None,
         spec_len: None,
+        default_json: None,
     });
 
     for e in v.iter_mut() {
